@@ -96,40 +96,6 @@ private theorem nz_src {src src' : Src} {snk snk' : Snk} {d lost : List Octet} (
 private theorem nz_snk {src src' : Src} {snk snk' : Snk} {d lost : List Octet} (h : Moved src snk src' snk' d lost)
     (hk : NoZero snk.script) : NoZero snk'.script := NoZero.suffix h.2.2.1 hk
 
-/-- `sts_n_cbc`: success = exactly n octets moved, nothing lost; failure = a prefix moved -/
-theorem sts_n_cbc_spec : ∀ (n : Nat) (src : Src) (snk : Snk) (total : Nat),
-    NoZero src.script → NoZero snk.script →
-    (∀ m, (sts_n_cbc n src snk total).1 = .ok m → m = total ∧
-      ∃ d, d.length = n ∧ Moved src snk (sts_n_cbc n src snk total).2.1 (sts_n_cbc n src snk total).2.2 d []) ∧
-    (∀ e, (sts_n_cbc n src snk total).1 = .err e →
-      ∃ d lost, lost.length ≤ 1 ∧ Moved src snk (sts_n_cbc n src snk total).2.1 (sts_n_cbc n src snk total).2.2 d lost) ∧
-    (sts_n_cbc n src snk total).1 ≠ .diverge := by
-  intro n
-  induction n with
-  | zero => intro src snk total _ _; exact ⟨fun m hm => ⟨by simpa [sts_n_cbc] using hm.symm, [], rfl, Moved.refl src snk⟩, by simp [sts_n_cbc], by simp [sts_n_cbc]⟩
-  | succ n ih =>
-    intro src snk total hs hk
-    obtain ⟨c1, c2, c3⟩ := sts_cbc_spec src snk hs hk
-    simp only [sts_n_cbc]
-    rcases hc : sts_cbc src snk with ⟨rc, src1, snk1⟩
-    rw [hc] at c1 c2 c3
-    simp only at c1 c2 c3
-    cases rc with
-    | diverge => exact absurd rfl c3
-    | err e =>
-      obtain ⟨lost, hl, hm⟩ := c2 e rfl
-      exact ⟨by simp, fun e' _ => ⟨[], lost, hl, hm⟩, by simp⟩
-    | ok k =>
-      obtain ⟨_, o, hm⟩ := c1 k rfl
-      obtain ⟨i1, i2, i3⟩ := ih src1 snk1 total (nz_src hm hs) (nz_snk hm hk)
-      refine ⟨?_, ?_, i3⟩
-      · intro m hmm
-        obtain ⟨f1, d, f2, f3⟩ := i1 m hmm
-        exact ⟨f1, o :: d, by simp [f2], by simpa using Moved.trans hm f3⟩
-      · intro e he
-        obtain ⟨d, lost, f1, f2⟩ := i2 e he
-        exact ⟨o :: d, lost, f1, by simpa using Moved.trans hm f2⟩
-
 /-- `sts_n` (endpoints without buffer extension): same guarantee -/
 theorem sts_n_spec : ∀ (fuel : Nat) (src : Src) (snk : Snk) (rest total : Nat),
     NoZero src.script → NoZero snk.script →
@@ -173,6 +139,17 @@ theorem sts_n_spec : ∀ (fuel : Nat) (src : Src) (snk : Snk) (rest total : Nat)
           obtain ⟨d, lost, f1, f2⟩ := i2 e he
           exact ⟨o :: d, lost, f1, by simpa using Moved.trans hm f2⟩
 
+/-- `sts_n_cbc`: the same loop (it counts what was moved): success = exactly n octets moved, nothing lost;
+    failure = a prefix moved; it terminates (fuel n suffices for drivers that never answer 0) -/
+theorem sts_n_cbc_spec (fuel n : Nat) (src : Src) (snk : Snk) (total : Nat)
+    (hs : NoZero src.script) (hk : NoZero snk.script) :
+    (∀ m, (sts_n_cbc fuel n src snk total).1 = .ok m → m = total ∧
+      ∃ d, d.length = n ∧ Moved src snk (sts_n_cbc fuel n src snk total).2.1 (sts_n_cbc fuel n src snk total).2.2 d []) ∧
+    (∀ e, (sts_n_cbc fuel n src snk total).1 = .err e →
+      ∃ d lost, lost.length ≤ 1 ∧ Moved src snk (sts_n_cbc fuel n src snk total).2.1 (sts_n_cbc fuel n src snk total).2.2 d lost) ∧
+    (n ≤ fuel → (sts_n_cbc fuel n src snk total).1 ≠ .diverge) :=
+  sts_n_spec fuel src snk n total hs hk
+
 /-- `sts_drain_cbc` and `sts_drain` stop with an error (end of data being one); what reached the
     sink is a prefix of the stream and at most one octet is lost -/
 theorem sts_drain_spec : ∀ (fuel : Nat) (src : Src) (snk : Snk),
@@ -213,7 +190,7 @@ theorem sts_drain_complete : ∀ (stream : List Octet) (got : List Octet) (sk kk
         = (.ok 1, { kind := sk, stream := os, script := [], calls := c1 + 1 },
             { kind := kk, got := got ++ [o], script := [], calls := c2 + 1 }) := by
     intro o os got sk kk c1 c2
-    simp [sts_cbc, source_get_octet, sink_put_octet, Src.call, Snk.call]
+    simp [sts_cbc, source_get_octet, sink_put_octet, Src.call, Snk.call, putRetry]
   have fin : ∀ (got : List Octet) (sk kk : Kind) (c1 c2 : Nat),
       (sts_cbc { kind := sk, stream := [], script := [], calls := c1 } { kind := kk, got := got, script := [], calls := c2 }).1
         = .err .enodata ∧
